@@ -311,6 +311,13 @@ func oneRequest(sess *session, c e2eCase, variant string, step int) error {
 			req = t2.AppendTo(req)
 			ref.SetARCount(req, 2)
 		}
+		if c.Variant == "unsignederr" {
+			// a "request" anyone can write: a TSIG naming a configured key, error BADSIG / BADKEY, no
+			// MAC at all, the current time
+			u := t
+			u.Error, u.MAC = 16+uint16(c.FlipBit&1), nil
+			req, reqMAC = u.AppendTo(packed), nil
+		}
 		if c.Variant == "tampered" {
 			// somewhere in the question (the header flags and counts decide routing, leave them)
 			body := len(packed) - 12
